@@ -61,6 +61,9 @@ func genSites() error {
 							if !known {
 								cls = "package-variable-or-unknown"
 							}
+							if cls == "local" && fresh[root] {
+								cls = "local-fresh" // every definition of the local creates a new backing store
+							}
 							writes = append(writes, site{dir, fd.Name.Name, exprText(l), cls, fmt.Sprintf("%s:%d", e.Name(), fset.Position(as.Pos()).Line)})
 						}
 					}
